@@ -43,6 +43,7 @@ fn install_budget(len: usize) {
         use sas_lexer::verif::{self, Event};
         let budget = 64 * len as u64 + 4096;
         let mut steps = 0u64;
+        let mut events = 0u64;
         verif::set_callback(Some(Box::new(move |ev: &Event| {
             if let Event::MainLoop { .. } = ev {
                 steps += 1;
@@ -53,7 +54,11 @@ fn install_budget(len: usize) {
             // every hook event is a scheduling point too (a plain one: `sleep(0)`, not
             // `yield_now`, which PCT treats as a priority hint), so that a call can be
             // preempted half-way through a helper as well as at its sync operations
-            shuttle::thread::sleep(std::time::Duration::ZERO);
+            // (on sources above 4 KB only at every 64th event, to bound the step count)
+            events += 1;
+            if len <= 4096 || events % 64 == 0 {
+                shuttle::thread::sleep(std::time::Duration::ZERO);
+            }
         })));
     }
     let _ = len;
@@ -254,7 +259,8 @@ fn main() {
         for k in (0..*n).step_by(step).take(take) {
             let s = &cat.sources[at + k];
             // short sources, plus the few-KB "medium" class (ids M..)
-            if s.text.len() <= 200 || (s.id.starts_with('M') && s.text.len() <= 20_000) {
+            // ... and the 33-90 KB "large" class (ids G..): size thresholds, pools of big vectors
+            if s.text.len() <= 200 || (s.id.starts_with('M') && s.text.len() <= 20_000) || s.id.starts_with('G') {
                 if let Some(key) = refs.get(&s.id) {
                     if key.starts_with("R:") {
                         pool.push((s.id.clone(), s.text.clone(), key.clone()));
